@@ -146,7 +146,7 @@ pub fn run() -> i32 {
     r.guard(ta.equal_ok > 2000, "alpha letters: more than 2000 equal Ok outcomes");
     tot.merge(ta);
     // ---- feature synonyms
-    let syn: Value = serde_json::from_str(&std::fs::read_to_string("/verif/fixtures/feature_synonyms.json").expect("fixture feature_synonyms.json")).expect("json");
+    let syn: Value = serde_json::from_str(&std::fs::read_to_string(format!("{}/fixtures/feature_synonyms.json", crate::util::root())).expect("fixture feature_synonyms.json")).expect("json");
     let uni: Vec<String> = super::c04::segment_universe(false).into_iter().map(|x| x.0).step_by(if thorough { 1 } else { 3 }).collect();
     let multi: Vec<String> = ["ta.pa", "ˈpaː.ta", "kat.pa.ta", "an.ta", "ˌtaˈpaːːt5"].iter().map(|s| s.to_string()).collect();
     let mut jobs: Vec<(String, String, String)> = vec![]; // (kind, canonical, spelling)
